@@ -1,24 +1,74 @@
-//! paired dc path-secret maps (client/server) built with the crate's own testing helpers
+//! paired dc path-secret maps (client/server) built with the crate's own testing helpers;
+//! the real seal -> open (dedup) -> control packet (StaleKey) -> sender flow.
 use crate::util::*;
-use s2n_quic_dc::stream::testing::{Client, Server};
+use s2n_codec::DecoderBufferMut;
+use s2n_quic_core::packet::KeyPhase;
+use s2n_quic_dc::{
+    credentials::Credentials,
+    crypto::{open::Application as _, seal::Application as _},
+    packet::secret_control,
+    path::secret::map::Peer,
+    stream::testing::{Client, Server},
+};
 use serde_json::{json, Value};
-use std::sync::Arc;
+use std::{net::UdpSocket, sync::Arc, time::Duration};
 
 pub fn runtime() -> tokio::runtime::Runtime {
     tokio::runtime::Builder::new_multi_thread().worker_threads(2).enable_all().build().unwrap()
 }
 
-/// N threads draw key ids for the same path secret concurrently; StaleKey floors are applied
-/// through authentic control packets where the loopback control channel is available.
+pub struct Sealed {
+    pub creds: Credentials,
+    pub header: [u8; 8],
+    pub ct: Vec<u8>,
+}
+
+/// draws the next key id of the path secret and protects a small payload with it
+pub fn seal(peer: &Peer) -> Sealed {
+    let (sealer, creds, _params) = peer.seal_once();
+    let header = [0xd0, 1, 2, 3, 4, 5, 6, 7];
+    let mut buf = vec![0x5au8; 24 + sealer.tag_len()];
+    sealer.encrypt(0, &header, None, &mut buf);
+    Sealed { creds, header, ct: buf }
+}
+
+/// the receive path of the server map: lookup, decrypt, replay check.  "ok" | "exists" | "unknown" | "err:.."
+pub fn open(server: &Server, s: &Sealed) -> String {
+    let mut control_out = Vec::new();
+    let Some(opener) = server.map().open_once(&s.creds, None, &mut control_out) else {
+        return "rejected_pre_auth".into();
+    };
+    let mut ct = s.ct.clone();
+    let tl = opener.tag_len();
+    let n = ct.len() - tl;
+    let (payload, tag) = ct.split_at_mut(n);
+    match opener.decrypt_in_place(KeyPhase::Zero, 0, &s.header, payload, tag) {
+        Ok(()) => "ok".into(),
+        Err(e) => {
+            let d = format!("{e:?}");
+            if d.contains("ReplayDefinitelyDetected") { "exists".into() } else if d.contains("ReplayPotentiallyDetected") { "unknown".into() } else { format!("err:{d}") }
+        }
+    }
+}
+
+/// N threads draw key ids for the same path secret concurrently while authentic StaleKey packets
+/// (produced by the real server map, received over the loopback control channel) are applied and REPLAYED.
 pub fn sender_runs(out: &mut TraceOut, _seed: u64, runs: usize, per_thread: usize) -> Value {
     let rt = runtime();
     let _g = rt.enter();
     let mut issued = 0u64;
+    let mut stale_applied = 0u64;
+    // the testing handshake registers the client at this fixed address: control packets for it arrive here
+    let ctl = UdpSocket::bind("127.0.0.1:1337").ok();
+    if let Some(c) = &ctl {
+        c.set_read_timeout(Some(Duration::from_millis(200))).ok();
+    }
     for run in 0..runs {
         out.emit(json!({"ev": "reset"}));
         let server = Server::builder().udp().build();
         let client = Client::builder().build();
         let peer = Arc::new(client.handshake_with(&server).expect("test handshake"));
+        let server_addr = server.local_addr();
         let nth = 2 + run % 3;
         let mut hs = Vec::new();
         for _t in 0..nth {
@@ -31,9 +81,52 @@ pub fn sender_runs(out: &mut TraceOut, _seed: u64, runs: usize, per_thread: usiz
                     if i % 5 == 0 {
                         std::thread::yield_now();
                     }
+                    if i % 50 == 49 {
+                        std::thread::sleep(Duration::from_micros(300));
+                    }
                 }
                 ids
             }));
+        }
+        // meanwhile: make the server emit StaleKey packets and apply / replay them on the client map
+        let mut main_log: Vec<Value> = Vec::new();
+        if let Some(ctl) = &ctl {
+            let old = seal(&peer);
+            main_log.push(json!({"ev": "cnext", "th": 15, "id": *old.creds.key_id}));
+            let mut datagrams: Vec<Vec<u8>> = Vec::new();
+            for round in 0..3 {
+                // advance the server's window far beyond `old`, then offer `old`: too old -> StaleKey
+                let mut newest = seal(&peer);
+                main_log.push(json!({"ev": "cnext", "th": 15, "id": *newest.creds.key_id}));
+                for _ in 0..(900 + 10 * round) {
+                    newest = seal(&peer);
+                    main_log.push(json!({"ev": "cnext", "th": 15, "id": *newest.creds.key_id}));
+                }
+                let r1 = open(&server, &newest);
+                let r2 = open(&server, &old);
+                main_log.push(json!({"ev": "note", "open_newest": r1, "open_old": r2}));
+                let mut buf = [0u8; 256];
+                while let Ok((n, _from)) = ctl.recv_from(&mut buf) {
+                    datagrams.push(buf[..n].to_vec());
+                    if datagrams.len() > 8 { break; }
+                    ctl.set_read_timeout(Some(Duration::from_millis(20))).ok();
+                }
+                ctl.set_read_timeout(Some(Duration::from_millis(200))).ok();
+                // apply every StaleKey seen so far again (replay), oldest first
+                for d in datagrams.clone() {
+                    let mut d2 = d.clone();
+                    if let Ok((packet, _)) = secret_control::Packet::decode(DecoderBufferMut::new(&mut d2)) {
+                        if let secret_control::Packet::StaleKey(p) = &packet {
+                            if let Some(sk) = peer.map().handle_stale_key_packet(p, &server_addr) {
+                                main_log.push(json!({"ev": "cstale", "th": 15, "m": *sk.min_key_id}));
+                                stale_applied += 1;
+                            }
+                        }
+                    }
+                    let _s = seal(&peer);
+                    main_log.push(json!({"ev": "cnext", "th": 15, "id": *_s.creds.key_id}));
+                }
+            }
         }
         for (t, h) in hs.into_iter().enumerate() {
             for id in h.join().unwrap() {
@@ -41,6 +134,12 @@ pub fn sender_runs(out: &mut TraceOut, _seed: u64, runs: usize, per_thread: usiz
                 issued += 1;
             }
         }
+        for e in main_log {
+            if e["ev"] != "note" {
+                if e["ev"] == "cnext" { issued += 1; }
+                out.emit(e);
+            }
+        }
     }
-    json!({"issued": issued})
+    json!({"issued": issued, "stale_key_packets_applied": stale_applied, "control_channel": ctl.is_some()})
 }
